@@ -13,12 +13,16 @@
 (*                 decay     after DecayFrames consecutive concealed frames  *)
 (*                           the excitation gain (randScale_Q14) and the     *)
 (*                           harmonic tap are at most 1/DecayDiv of their    *)
-(*                           values after the first concealed frame          *)
+(*                           values after the first concealed frame, or at   *)
+(*                           most FloorTap (Q14; a negative tap sticks at    *)
+(*                           -20: floor rounding)                            *)
 (*                           (the comfort noise that is ADDED is outside the *)
 (*                           clause: findings/OBS_c09_silk_concealment_no_   *)
 (*                           decay.c - it is asserted only through the model) *)
 (*                 glue      the glue modifies a decoded frame only when the *)
 (*                           previous frame of that channel was concealed    *)
+(*                 recovery  a decoded frame ends the loss run (lossCnt = 0):*)
+(*                           no comfort noise is added to later decoded frames*)
 (*                 duration  a concealment / FEC / decode call returns the   *)
 (*                           requested number of samples                     *)
 (*        "C01"    lossCnt / pitch lag leave the range the concealment's     *)
@@ -28,7 +32,7 @@
 (***************************************************************************)
 EXTENDS SilkPlc, Json, IOUtils, TLC
 
-CONSTANTS DecayFrames, DecayDiv
+CONSTANTS DecayFrames, DecayDiv, FloorTap
 VARIABLES cur, st, fresh, run, seen
 
 vars == <<cur, st, fresh, run, seen>>
@@ -78,8 +82,9 @@ StepDf(e) ==
       r1 == IF e.dec = 1 THEN [NoRun EXCEPT !.lost = FALSE]
             ELSE IF r.n = 0 THEN [n |-> 1, r0 |-> post.rs, b0 |-> post.B[3], lost |-> TRUE]
             ELSE [r EXCEPT !.n = n1, !.lost = TRUE]
-      decay == (e.dec = 0 /\ n1 >= DecayFrames) => (post.rs * DecayDiv <= r1.r0 /\ post.B[3] * DecayDiv <= r1.b0)
+      decay == (e.dec = 0 /\ n1 >= DecayFrames) => ((post.rs * DecayDiv <= r1.r0 \/ post.rs <= FloorTap) /\ (Abs(post.B[3]) * DecayDiv <= Abs(r1.b0) \/ Abs(post.B[3]) <= FloorTap))
       glue == (e.dec = 1 /\ touched) => r.lost
+      recov == (e.dec = 1) => post.lc = 0
   IN
   /\ Say(cont, "drift", <<"continuity", IF known THEN Diff(pre, x) ELSE {}>>)
   /\ Say(shape, "drift", <<"callShape", e.np, e.nc, e.ng, e.dec>>)
@@ -87,6 +92,7 @@ StepDf(e) ==
   /\ Say(smp = {}, "drift", <<"glueSamples", smp>>)
   /\ Say(decay, "C09", <<"decay", n1, post.rs, r1.r0, post.B[3], r1.b0>>)
   /\ Say(glue, "C09", <<"glue", e.gx, e.gy>>)
+  /\ Say(recov, "C09", <<"recovery", post.lc>>)
   /\ Say(RangeOK(post), "C01", <<"range", post.lc, post.pitch, post.fs>>)
   /\ st' = [st EXCEPT ![ch] = [has |-> TRUE, s |-> post]]
   /\ run' = [run EXCEPT ![ch] = r1]
